@@ -73,6 +73,10 @@ def _proj(obj, attrs, prefix):
         if callable(x):
             continue
         out[prefix + a] = val(x)
+        if a in ("nenv", "nrep") and isinstance(x, np.ndarray) and np.issubdtype(x.dtype, np.integer):
+            # trial-design counts: the HDF5 reader documents "converted to int"; the width of an integer count is not
+            # observable behaviour (values and shape are compared)
+            out[prefix + a]["t"] = "integer|" + out[prefix + a]["t"].split("|", 1)[1]
     gp = getattr(obj, "gpmod", None)
     if gp is not None and not callable(gp):
         out.update(_proj(gp, attrs, prefix + "gpmod."))
